@@ -6,8 +6,14 @@ import itertools
 TR = {'o': 'cleared', 'x': 'failed', 'p': 'passed', 'r': 'retired'}
 LET = {'o': 'o', 'x': 'x', 'p': '-', 'r': 'r'}
 
-def new_comp(athlib):
-    return athlib.HighJumpCompetition()
+def new_comp(athlib, float_heights=False):
+    """float_heights: bar heights are passed as Python floats (as the unit tests do) instead of Decimal"""
+    c = athlib.HighJumpCompetition()
+    c._verif_float = float_heights
+    return c
+
+def _c(v):
+    return int(round(v * 100))
 
 def apply_op(athlib, c, op):
     """op = ('add', bib:int) | ('bar', h:int hundredths) | ('trial', bib:int, t in 'oxpr'); returns outcome string"""
@@ -15,7 +21,7 @@ def apply_op(athlib, c, op):
         if op[0] == 'add':
             c.add_jumper(bib=str(op[1]))
         elif op[0] == 'bar':
-            c.set_bar_height(D(op[1]) / 100)
+            c.set_bar_height(op[1] / 100.0 if getattr(c, '_verif_float', False) else D(op[1]) / 100)
         else:
             getattr(c, TR[op[2]])(str(op[1]))
         return 'ok'
@@ -33,16 +39,16 @@ def snap(c):
     action log, trials"""
     js = []
     for j in c.jumpers:
-        js.append('%s:%s:%d:%s' % (j.bib, j.place if j.place != '' else '-', int(j.highest_cleared * 100),
+        js.append('%s:%s:%d:%s' % (j.bib, j.place if j.place != '' else '-', _c(j.highest_cleared),
                                    '/'.join(j.attempts_by_height)))
     rem = ','.join(j.bib for j in c.remaining)
     acts = []
     for a, v in c.actions:
         if a == 'add_jumper': acts.append('a%s' % v.get('bib'))
-        elif a == 'set_bar_height': acts.append('b%d' % int(v * 100))
+        elif a == 'set_bar_height': acts.append('b%d' % _c(v))
         else: acts.append('%s%s' % (c.action_letter[a], v))
-    tr = ','.join('%s@%d%s' % (b, int(h * 100), r) for b, h, r in c.trials)
-    return '%s|%s|%s|%s|%s|%s' % (c.state, ','.join(str(int(h * 100)) for h in c.heights), ';'.join(js), rem,
+    tr = ','.join('%s@%d%s' % (b, _c(h), r) for b, h, r in c.trials)
+    return '%s|%s|%s|%s|%s|%s' % (c.state, ','.join(str(_c(h)) for h in c.heights), ';'.join(js), rem,
                                   ' '.join(acts), tr)
 
 def op_line(op):
@@ -58,12 +64,13 @@ def fmt_ops(ops):
         else: out.append('%s %d' % (TR[op[2]], op[1]))
     return out
 
-def replay_py(ops):
+def replay_py(ops, float_heights=False):
     """python statements that rebuild the history on the real object"""
     L = ['from decimal import Decimal as D', 'c = athlib.HighJumpCompetition()', 'log = []', 'def _do(f, *a):',
          '    try: f(*a); log.append("ok")', '    except Exception as e: log.append(type(e).__name__)']
     for op in ops:
         if op[0] == 'add': L.append("_do(lambda: c.add_jumper(bib=%r))" % str(op[1]))
+        elif op[0] == 'bar' and float_heights: L.append("_do(c.set_bar_height, %r)" % (op[1] / 100.0))
         elif op[0] == 'bar': L.append("_do(c.set_bar_height, D(%r))" % ('%.2f' % (op[1] / 100)))
         else: L.append("_do(c.%s, %r)" % (TR[op[2]], str(op[1])))
     L.append("result = (log, c.state, [(j.bib, j.place, str(j.highest_cleared), j.attempts_by_height) for j in c.jumpers])")
@@ -219,16 +226,19 @@ class Ref:
 # ----------------------------------------------------------------------------------------------
 ATT = ['o', 'xo', 'xxo', 'xxx', 'x-', 'xx-', '-', 'r', 'xr', 'xxr', '']
 ATT_W = [6, 3, 2, 4, 1, 1, 2, 1, 1, 1, 1]
+# sampled plans also stop after one or two failures with attempts left (the bar moves on: a cell of failures only)
+ATT_ALL = ATT + ['x', 'xx']
+ATT_W_ALL = ATT_W + [1, 1]
 
 def gen_competition(rng, athlib, nath=None, nheights=None, jo_heights=3, att_choice=None, jo_letters=('oxr', [4, 5, 1]),
-                    on_call=None, probes=False):
+                    on_call=None, probes=False, float_heights=False, h0=100, steps=(3, 5)):
     """drive a real competition + referee through a structured complete competition; returns
     (ops, comp, ref). Within a height athletes take trials round-robin (attempt 1 of everybody, ...).
     on_call(c, ref, ops_so_far, op) -> outcome may replace the plain application (it must record accepted
     calls in the referee itself); probes=True adds calls the rules forbid (athletes who are out, extra attempts)."""
     nath = nath or rng.randint(2, 4)
     nheights = nheights or rng.randint(1, 4)
-    c = new_comp(athlib); r = Ref(); ops = []
+    c = new_comp(athlib, float_heights); r = Ref(); ops = []
     def do(op):
         if on_call is not None:
             out = on_call(c, r, list(ops), op)
@@ -244,16 +254,16 @@ def gen_competition(rng, athlib, nath=None, nheights=None, jo_heights=3, att_cho
             if rng.random() < 0.5:
                 do(('trial', b, rng.choice('oxpr')))
     for b in range(1, nath + 1): do(('add', b))
-    h = 100
+    h = h0
     seen_heights = []
     for hi in range(nheights):
         if c.state not in ('started', 'scheduled', 'won'): break
-        h += rng.choice([3, 5])
+        h += rng.choice(steps)
         if do(('bar', h)) != 'ok': break
         seen_heights.append(h)
         plan = {}
         for b in range(1, nath + 1):
-            plan[b] = att_choice(rng) if att_choice else rng.choices(ATT, ATT_W)[0]
+            plan[b] = att_choice(rng) if att_choice else rng.choices(ATT_ALL, ATT_W_ALL)[0]
         for a in range(3):
             order = list(range(1, nath + 1))
             for b in order:
